@@ -138,6 +138,7 @@ Arguments HOther {T}.
 Section Refined.
   Variables B S V D H T W E : Type.
   Variable kind_of : B -> kind.
+  Variable guards : kind -> guard_set.
   Variable fees_present : B -> bool.
   Variable expected_calldata : B -> Z -> Z -> V -> list S -> D.
   Variable expected_deploy : B -> D.
@@ -155,7 +156,7 @@ Section Refined.
   Variable snapshot_of : W -> snapshot.
 
   Notation astate := (state B S V H T W).
-  Notation astep := (step B S V D H T W E kind_of fees_present expected_calldata expected_deploy D_eqb H_eqb
+  Notation astep := (step B S V D H T W E kind_of guards fees_present expected_calldata expected_deploy D_eqb H_eqb
                        tx_hash tx_data valset_at compass_present apply_effect on_error_proof).
 
   Record rstate := { abs : astate; evid : list (Z * reports T) }.
